@@ -85,6 +85,8 @@ class MySQLQueryBuilder(QueryBuilder):
 
     def _on_conflict_action_sql(self, ctx: SqlContext) -> str:
         on_conflict_ctx = ctx.copy(with_namespace=False)
+        # in INSERT ... SELECT a new value may come from a source of the SELECT: it keeps its source's name
+        value_ctx = ctx.copy(with_namespace=bool(self._from))
         if len(self._on_conflict_do_updates) > 0:
             updates = []
             for field, value in self._on_conflict_do_updates:
@@ -92,7 +94,7 @@ class MySQLQueryBuilder(QueryBuilder):
                     updates.append(
                         "{field}={value}".format(
                             field=field.get_sql(on_conflict_ctx),
-                            value=value.get_sql(on_conflict_ctx),
+                            value=value.get_sql(value_ctx),
                         )
                     )
                 elif self.alias is None:
